@@ -57,7 +57,11 @@ def impl_parse(q, entry=None, history=True):
         return {"err": [type(e).__name__, str(e)]}, None
     if t is None or not isinstance(t, I.tree.Item):
         return {"err": ["<no tree>", repr(t)]}, None
-    return {"ok": common.dump_tree(t)}, t
+    try:
+        return {"ok": common.dump_tree(t)}, t
+    except TypeError as e:
+        # (a tree the parser must never hand out, e.g. a NaN degree: reported as an outcome of its own, not a crash)
+        return {"err": ["<tree that cannot be described>", str(e)]}, None
 
 
 def compare_parses(ctx, queries, stream="parse"):
